@@ -330,4 +330,41 @@ def joinSeparate (parent child : World) : World :=
 def runTestSeparate (w : World) (t : TestObj) : World :=
   joinSeparate (runOutside (clearObs w) t.test.before) (runTestObj w t)
 
+/-! ## `firstPlugin_`: which plugin object the declaration macros reach
+
+`EXPECT_N_LEAKS(n)` / `IGNORE_ALL_LEAKS_IN_TEST()` call `getFirstPlugin()->…`.  The static is
+written by the plugin constructor only (whether "only while it is NULL" is read from the source);
+the destructor does not touch it.  A process holds the installed plugin (with its detector and
+the test result: a `World`) and possibly further plugin objects that were never installed. -/
+
+/-- the constructor's `firstPlugin_` line, run by the plugin object `this` -/
+def afterConstruct (first this : FirstPlugin) : FirstPlugin :=
+  if firstPluginSetOnlyIfNull then (match first with | .unset => this | f => f) else this
+
+structure Proc where
+  w     : World
+  first : FirstPlugin
+deriving Repr, Inhabited
+
+/-- the installed plugin is the first plugin object of the process (as in
+    `CommandLineTestRunner::RunAllTests`) -/
+def Proc.init (overloads : Bool) : Proc :=
+  { w := World.init overloads, first := afterConstruct .unset .installed }
+
+inductive ProcOp
+  | constructOther        -- `MemoryLeakWarningPlugin other("…", &otherDetector);` never installed
+  | destroyOther          -- its destructor
+deriving DecidableEq, Repr, Inhabited
+
+def Proc.step (p : Proc) : ProcOp → Proc
+  | .constructOther => { p with first := afterConstruct p.first .other }
+  | .destroyOther => p
+
+/-- a scripted command: declarations go to whichever plugin object `firstPlugin_` points to -/
+def Proc.execCmd (p : Proc) (c : Cmd) : Proc :=
+  match c with
+  | .expectLeaks _ => if p.first = .installed then { p with w := LeakPlugin.execCmd p.w c } else p
+  | .ignoreLeaks => if p.first = .installed then { p with w := LeakPlugin.execCmd p.w c } else p
+  | _ => { p with w := LeakPlugin.execCmd p.w c }
+
 end LeakPlugin
